@@ -41,7 +41,7 @@ theorem planLinked_hasLIB (cfg : Config) (s1 : FState) (b : Blk) (trig : Bool) (
 /-- what `plan` can return when the LIB is known and no inclusive starting block is awaited -/
 theorem plan_cases (cfg : Config) (s : FState) (b : Blk) (hni : s.includeInit = false) (hlib : s.db.libRef.id ≠ "") :
     (∃ r, plan cfg s b = .done s r) ∨
-    ((s.db.addLink b).2 = false ∧ b.id ≠ b.parent ∧
+    ((s.db.addLink b).2 = false ∧ b.id ≠ b.parent ∧ ¬ (b.num < s.db.libRef.num ∧ s.lastSent.isSome = true) ∧
       ∃ u r j, switchSegments cfg s b (triggers cfg s b) = some (u, r, j) ∧
         plan cfg s b = planLinked cfg (afterLink s b) b (triggers cfg s b) u r j) := by
   unfold plan
@@ -62,7 +62,7 @@ theorem plan_cases (cfg : Config) (s : FState) (b : Blk) (hni : s.includeInit = 
         by_cases h3 : (s.db.addLink b).2 = true
         · rw [if_pos h3]; exact Or.inl ⟨_, rfl⟩
         · rw [if_neg h3]
-          exact Or.inr ⟨by simpa using h3, by simpa using h1, u, r, j, rfl, rfl⟩
+          exact Or.inr ⟨by simpa using h3, by simpa using h1, by simpa using h2, u, r, j, rfl, rfl⟩
 
 end BstreamVerif.Forkable
 
